@@ -617,6 +617,7 @@ def worker(args) -> Dict[str, Any]:
         sites_of: Dict[int, di.Sites] = {}
         batch: List[Variant] = []
         batch_size = chk.pick(8, 16)
+        own_minimum = 5 if chk.budget is None else 0
 
         def flush() -> None:
             if batch:
@@ -624,7 +625,10 @@ def worker(args) -> Dict[str, Any]:
                 batch.clear()
 
         for index, (b, name, category) in enumerate(mine):
-            if chk.elapsed() > budget:
+            # soft budget; on a crowded machine go on (up to three times the budget) until
+            # this worker has contributed its share of the minimum observations
+            done = chk.counters.get("variants_generated", 0) + len(batch)
+            if chk.elapsed() > budget and (done >= own_minimum or chk.elapsed() > 3 * budget):
                 chk.count("tasks_skipped_for_budget", len(mine) - index)
                 break
             if b not in sites_of:
@@ -705,7 +709,7 @@ def main(argv) -> int:
         "a failure that the payload-free baseline of the same base model shows as well is "
         "reported once under .../no-payload/... and not attributed to a payload"
     )
-    chk.require_min("variants_generated", chk.pick(20, 250))
+    chk.require_min("variants_generated", chk.pick(20, 200))
     for name, quick, thorough in (
         ("files_parsed/python", 40, 400), ("files_parsed/java", 60, 400),
         ("files_parsed/typescript", 40, 400), ("files_parsed/csharp", 40, 400),
